@@ -891,3 +891,87 @@ Proof.
   assert (S0 : sqinv (init boot)) by (intros _; reflexivity).
   rewrite (run_o_sqinv evs (init boot) 0 [] s out (sinv_init boot) S0 ltac:(lia) H Hs). reflexivity.
 Qed.
+
+(* ---------------------------------------------------------------- the kind of the resolution *)
+(* a Return for a question that is neither canceled nor a bootstrap resolves its local call in the
+   same step, with class 0 (results) or 1 (an error for the caller); class 0 only for a results
+   Return (an exception Return, any other kind of Return and unreadable results give class 1).
+   With [call_resolves_once] this is THE resolution of that call. *)
+Theorem return_resolves_kind : forall qid rpc k s s0 o0 ab q, handle_return cfg_fixed qid rpc k s = Ok (s0, o0, ab) ->
+  tget qid (s_qs s) = Some q -> q_fin q = false -> q_boot q = None ->
+  exists c, In (LAppRes (q_call q) c) o0 /\ (c = 0 \/ c = 1) /\ (c = 0 -> exists p, k = RkResults (Some p)).
+Proof.
+  intros qid rpc k s s0 o0 ab q H Eq Ef Eb. unfold handle_return in H. rewrite Eq in H.
+  set (sa := set_qs (tclear qid (s_qs s)) s) in *.
+  destruct (if fx19 cfg_fixed && rpc then let '(s1, cl, _) := release_exports (q_prefs q) sa in (s1, cl) else (sa, [])) as [s1 pc].
+  rewrite Ef in H.
+  match type of H with (bind ?r _) = _ => destruct r as [[[[s2 parsed] tor] disemb]| |] eqn:EP; cbn [bind] in H; try discriminate end.
+  rewrite Eb in H.
+  assert (PK : (exists p, k = RkResults (Some p)) \/ parsed = None).
+  { destruct k as [[p|]| |]; [left; eauto|right|right|right]; inversion EP; subst; reflexivity. }
+  destruct parsed as [[kc tab]|].
+  - destruct PK as [PK|PK]; [|discriminate].
+    match type of H with (bind ?r _) = _ => destruct r as [[s3 o3]| |] eqn:E3; cbn [bind] in H; try discriminate end.
+    destruct (release_caps cfg_fixed tab s2) as [[s4 o4]| |]; cbn [bind] in E3; try discriminate. inversion E3; subst.
+    destruct (release_caps cfg_fixed pc s3) as [[s5 o5]| |]; cbn [bind] in H; try discriminate. inversion H; subst.
+    exists 0. split; [apply in_or_app; right; right; left; reflexivity|split; [left; reflexivity|intros _; exact PK]].
+  - match type of H with (bind ?r _) = _ => destruct r as [[s3 o3]| |] eqn:E3; cbn [bind] in H; try discriminate end.
+    destruct (release_caps cfg_fixed tor s2) as [[s4 o4]| |]; cbn [bind] in E3; try discriminate. inversion E3; subst.
+    destruct (release_caps cfg_fixed pc s3) as [[s5 o5]| |]; cbn [bind] in H; try discriminate. inversion H; subst.
+    exists 1. split; [apply in_or_app; right; right; left; reflexivity|split; [right; reflexivity|discriminate]].
+Qed.
+
+(* ---------------------------------------------------------------- where the machine leaves rpc.Conn: a peer that answers an unsent question *)
+(* [AHold] is a local call whose PlaceArgs callback blocks: its question is allocated, nothing is
+   sent.  A peer that keeps to the protocol cannot name that question (it has not seen its Call).
+   If a Return names it nevertheless, the machine resolves the call at once and [AUnhold] sends
+   nothing, whereas importClient.Send still writes the Call with the (already freed) id once
+   PlaceArgs is through -- the id can then be on the wire twice without a Finish in between.
+   [late_free] says that no event of a history is such a Return; the history-level statements about
+   question ids are statements about rpc.Conn for late_free histories only. *)
+Definition ret_held (s : state) (e : event) : bool :=
+  match e with
+  | MReturn qid _ _ => match tget qid (s_qs s) with Some q => held q | None => false end
+  | _ => false
+  end.
+Fixpoint late_free (s : state) (evs : list event) : bool :=
+  match evs with
+  | [] => true
+  | e :: r => if ret_held s e then false
+              else match step cfg_fixed s e with Ok (s1, _) => late_free s1 r | _ => true end
+  end.
+Definition imp5 : payload := mkPayload true false (KCap 0) (Some [DSH 5]).
+Definition h_late : list event :=
+  [ABootstrap; MReturn 0 false (RkResults (Some imp5)); AHold 0; MReturn 0 false (RkExc true); ACall 0 [] 7; AUnhold 0].
+Definition calls0 (o : list output) : nat := cnt (is_issue 0) o.
+(* the reviewer's history: not late_free (its 4th event answers the held question 0); the machine
+   issues id 0 twice (the Bootstrap and the call c0) with a Finish between -- the Call of the held
+   call is never sent by the machine, rpc.Conn sends it after c0's *)
+Example late_return_history : late_free (init true) h_late = false /\
+  late_free (init true) (firstn 3 h_late) = true /\
+  match run_o (init true) h_late [] with Ok (_, o) => calls0 o = 2%nat /\ cnt (is_finish 0) o = 2%nat | _ => False end.
+Proof. vm_compute. repeat split; reflexivity. Qed.
+
+(* [app_return_result] is not vacuous: after Bootstrap and a Call on the bootstrap export the answer
+   1 runs on a server; when the server returns, the step sends the results Return for 1.  The
+   descriptor list is all the machine keeps of a Return's content ([OReturnRes id ds]): two
+   different results without capabilities give the same output. *)
+Definition h_ret (fs : list rfield) : list event :=
+  [MBootstrap 0; MCall 1 (TgImp 0) (Some (mkPayload true false (KStruct []) (Some []))) true true 1; AReturn 0 (ARResults fs)].
+Example return_reached :
+  match run_o (init true) (firstn 2 (h_ret [FOther])) [] with
+  | Ok (s, _) => exists a, find_running 0 (s_ans s) = Some (1, a) /\ live s
+  | _ => False
+  end /\
+  match run_o (init true) (h_ret [FOther]) [], run_o (init true) (h_ret [FNull; FNull; FOther]) [] with
+  | Ok (_, o1), Ok (_, o2) => In (OReturnRes 1 []) o1 /\ o1 = o2
+  | _, _ => False
+  end.
+Proof.
+  split.
+  - destruct (run_o (init true) (firstn 2 (h_ret [FOther])) []) as [[s o]| |] eqn:E; vm_compute in E; try discriminate.
+    inversion E; subst. eexists. split; [vm_compute; reflexivity|].
+    destruct (run_o_inv (firstn 2 (h_ret [FOther])) (init true) 0 [] _ _ (sinv_init true) (qhinv_init true) ltac:(vm_compute; reflexivity) ltac:(vm_compute; reflexivity)) as [_ [W I]].
+    unfold sinv in I. simpl in I. split; [reflexivity|apply I].
+  - vm_compute. split; [repeat (try (left; reflexivity); right)|reflexivity].
+Qed.
